@@ -1,1 +1,6 @@
-
+From Label Require Import LModel Iso Linear GenLabelFacts.
+Theorem C05_facts_pinned :
+  f_iso_dir gen_label_facts = IsoDocumented /\ f_ext_bit gen_label_facts = Some true /\
+  f_short gen_label_facts = ShortLt0 /\ f_repl gen_label_facts = ReplDict /\ f_iso_helpers gen_label_facts = true.
+Proof. vm_compute. repeat split. Qed.
+Print Assumptions C05_facts_pinned.
